@@ -23,7 +23,9 @@ m = {
         {"name": "harness", "path": "harness/", "serves_properties": [p["id"] for p in props],
          "kind_free_text": "Rust correspondence / judging harness linking the real crate (path dependency on /repo, --cfg sstable_verif), regression witnesses of all fixed defects"},
         {"name": "translator", "path": "tools/gen_consts.py", "serves_properties": [p["id"] for p in props],
-         "kind_free_text": "regenerates the model's constants from /repo/src on every run"}],
+         "kind_free_text": "regenerates the model's constants from /repo/src on every run"},
+        {"name": "function-translator", "path": "tools/gen_funcs.py", "serves_properties": [k for k, v in PROPS.items() if v.get("funcs")],
+         "kind_free_text": "parses small Rust functions of /repo/src and regenerates them as Lean definitions (lean/SstModel/Generated/Funcs.lean) on every run; lean/SstModel/Props/FuncsTie proves each equal to the hand-written model function for every input; lean/FuncsDiff.lean searches for an input when such a proof no longer checks"}],
     "checks": [], "not_applicable": [],
     "notes": "Technique family: machine-checked proof in Lean 4 + checked correspondence (hand-written model run against the real crate on every check). See DESIGN.md. fix: commits in /repo (oldest first): " + " ".join(reversed(fixes)),
 }
@@ -39,9 +41,11 @@ for p in props:
             "evidence_file": "/verif/evidence/%s.json" % pid,
             "replay_cmd_template": "cat {path}  # holds the failing input (or the broken theorem / stream) and the exact re-run command",
             "engine": "lean-model",
-            "technique": t.get("technique", "Lean 4 theorem about the model + checked correspondence of the model with the crate"),
+            "technique": t.get("technique", "Lean 4 theorem about the model + checked correspondence of the model with the crate") + (
+                "; function-level tie: %s translated from the Rust source on every run and proved equal to the model for every input" % ", ".join(cfg["funcs"]) if cfg.get("funcs") else ""),
             "level_claimed": {"category": cfg.get("level", "proof"), "text": t.get("level_text", "") + ((" PARTIAL: " + cfg["partial"]) if cfg.get("partial") else ""), "design_ref": "DESIGN.md §7 " + pid},
-            "level_note": t.get("level_note", "Trusted: Lean kernel (axioms propext, Classical.choice, Quot.sound), tools/gen_consts.py, the hand-written model tied to the code by the correspondence streams of this property; see evidence.assumptions."),
+            "level_note": t.get("level_note", "Trusted: Lean kernel (axioms propext, Classical.choice, Quot.sound), tools/gen_consts.py, the hand-written model tied to the code by the correspondence streams of this property; see evidence.assumptions.") + (
+                " Also trusted: tools/gen_funcs.py and Model/RustRt.lean (meaning of the translated Rust operations)." if cfg.get("funcs") else ""),
         })
     else:
         m["not_applicable"].append({"property_id": pid, "reason": t.get("na_reason", "theorem not finished: the correspondence + judge check exists and runs (./check %s) but the property is not claimed until its Lean theorem is proved" % pid)})
